@@ -71,3 +71,16 @@ Proof.
   - intros u v Hu Hv. pose proof (Hrad u Hu). pose proof (Hrad v Hv).
     pose proof (rad_le_max m rad u Hu). pose proof (rad_le_max m rad v Hv). unfold cutoff. lia.
 Qed.
+
+(* the specification determines the table: two tables satisfying it with the same cutoff agree entry by entry *)
+Lemma tab_spec_unique p img N cut t1 t2 :
+  tab_spec p img N cut t1 -> tab_spec p img N cut t2 -> forall i j, (i < N)%nat -> (j < N)%nat -> i <> j -> t1 i j = t2 i j.
+Proof.
+  intros H1 H2 i j Hi Hj Hne. specialize (H1 i j Hi Hj Hne). specialize (H2 i j Hi Hj Hne).
+  destruct (t1 i j) as [d1|], (t2 i j) as [d2|].
+  - destruct H1 as ((o1 & Ho1 & E1) & M1 & _), H2 as ((o2 & Ho2 & E2) & M2 & _).
+    pose proof (M1 o2 Ho2). pose proof (M2 o1 Ho1). f_equal. lia.
+  - destruct H1 as ((o1 & Ho1 & E1) & _ & C1). specialize (H2 o1 Ho1). lia.
+  - destruct H2 as ((o2 & Ho2 & E2) & _ & C2). specialize (H1 o2 Ho2). lia.
+  - reflexivity.
+Qed.
